@@ -34,6 +34,7 @@ type tpWorld struct {
 	initRaw  []byte
 	initHas  bool
 	fnResult string
+	bufs     codecBufs
 	dirty    bool // the caller mutated the cached object: value-level cache coherence is not claimed (aliasing)
 }
 
@@ -57,10 +58,11 @@ func (w *tpWorld) open() {
 			}
 			w.trace = append(w.trace, "E")
 
-			return encU64(v.X), nil
+			return w.bufs.encVal(v.X), nil
 		},
 		func(b []byte) (*settings, int, error) {
 			v, ok := decU64(b)
+			w.bufs.consumed(b)
 			if w.flt.dec || !ok {
 				w.trace = append(w.trace, "D!")
 				w.anyFail = true
@@ -171,6 +173,8 @@ func (w *tpWorld) line(out string, ret *settings) string {
 func (w *tpWorld) exec(r *hx.Run, f []string) string {
 	op := "tp " + strings.Join(f, " ")
 	switch f[0] {
+	case "codec":
+		return w.bufs.setFlavour(f[1])
 	case "init":
 		w.base.Delete(tvKey)
 		w.initHas, w.initRaw = false, nil
@@ -350,6 +354,7 @@ func (w *tpWorld) exec(r *hx.Run, f []string) string {
 	if ret != nil {
 		w.g = ret
 	}
+	w.bufs.opDone()
 	rawAfter, hasAfter := w.raw()
 	cvA, cvSetA, chA, ptrA := w.cache()
 	cacheAfter := w.showCache(cvA, cvSetA, chA)
@@ -442,6 +447,9 @@ func genTP(rng *hx.Rng) []string {
 		init = hx.Pick(rng, []string{"010203", "ffffffffffffffff"})
 	}
 	ops := []string{"tp init " + init}
+	if rng.Bool() {
+		ops = append([]string{"tp codec scratch"}, ops...)
+	}
 	haveA, haveG := false, false
 	vals := []string{"0", "1", "2", "7", "41", "18446744073709551614", "18446744073709551615"}
 	n := rng.Range(6, 22)
